@@ -576,6 +576,55 @@ def maps(run, exprs, descr):
                 for j in range(len(grp))]
         check_map(run, f"recorded:{fn}", grp, coords, shape, exprs, descr,
                   plan)
+    # a map opened from its path: the same pixels as from the group, and a
+    # metadata override reaches every curve
+    from nanite import QMap
+    fn = recs[0]
+    for mo in (None, {"spring constant": 0.0625}):
+        run.case({"map-from-path": fn, "meta_override": mo},
+                 kind="map-from-path")
+        key = f"map-from-path:{fn}:{mo is not None}"
+        try:
+            with warnings.catch_warnings():
+                warnings.simplefilter("ignore")
+                seq = []
+                qp = QMap(DATA / fn, meta_override=mo,
+                          callback=lambda x: seq.append(float(x)))
+                gg = IndentationGroup(DATA / fn, meta_override=mo)
+                qg = QMap(gg)
+            why = None
+            if len(qp.group) != len(gg):
+                why = f"{len(qp.group)} curves, the group has {len(gg)}"
+            elif mo and any(c.metadata["spring constant"]
+                            != mo["spring constant"] for c in qp.group):
+                why = ("spring constants "
+                       f"{[c.metadata['spring constant'] for c in qp.group]} "
+                       f"with meta_override={mo}")
+            elif qp.shape != qg.shape or not np.allclose(qp.extent,
+                                                         qg.extent):
+                why = "shape/extent differ from the group's map"
+            else:
+                for feat in ["data: height base point",
+                             "data: piezo range", "data: scan order"]:
+                    a = qp.get_qmap(feat, qmap_only=True)
+                    b_ = qg.get_qmap(feat, qmap_only=True)
+                    if not np.array_equal(a, b_, equal_nan=True):
+                        why = f"feature {feat!r} differs from the group's map"
+                        break
+                fa = [np.asarray(c["force"]).tobytes() for c in qp.group]
+                fb = [np.asarray(c["force"]).tobytes() for c in gg]
+                if why is None and fa != fb:
+                    why = "force columns differ from the group's curves"
+            if why is None and (not seq or seq[-1] != 1.0 or
+                                any(b2 < a2 for a2, b2 in zip(seq, seq[1:]))):
+                why = f"progress values {seq[:6]}...{seq[-2:]}"
+        except BaseException as e:
+            if isinstance(e, (KeyboardInterrupt, SystemExit)):
+                raise
+            why = f"raised {type(e).__name__}: {e}"
+        if why:
+            run.failing(SITE_Q, key, f"QMap({fn!r}, meta_override={mo}): {why}",
+                        payload={"kind": "rerun"}, theorem="C20_pixel")
 
 
 def check(run):
